@@ -241,6 +241,18 @@ var methods = []string{"GET", "GET", "POST", "FOO", "PATCH", "FOO"}
 
 func genCase(t *rapid.T) *Case {
 	c := &Case{}
+	if gen.Chance(t, 1, 5, "competition") {
+		// candidates of different priority (static, prefixed parameter, parameter, catch-all) for the same requests,
+		// directly and once the trailing slash is adjusted
+		pats, paths := gen.Competition(t)
+		for _, p := range pats {
+			c.Routes = append(c.Routes, rt.RouteSpec{Method: "GET", Pattern: p})
+		}
+		for _, p := range paths {
+			c.Reqs = append(c.Reqs, rt.Req{Method: "GET", Path: p})
+		}
+		return c
+	}
 	n := gen.IntR(t, 1, 10, "nroutes")
 	hostW := gen.Pick(t, []int{2, 2, 1000}, "hostweight")
 	var pool []string
